@@ -271,9 +271,12 @@ func negotiateFeatures(ctx context.Context, s *Session, first, ws bool, features
 
 		mask, rw, err = data.feature.Negotiate(ctx, s, s.features[data.feature.Name.Space])
 		s.in.d = oldDecoder
-		if err == nil {
-			s.state |= mask
+		if err != nil {
+			// Never continue after a failed step, even if the feature was optional:
+			// the error would be overwritten by the next feature or lost entirely.
+			return mask, nil, err
 		}
+		s.state |= mask
 		s.negotiated[data.feature.Name.Space] = struct{}{}
 
 		// If we negotiated a required feature or a stream restart is required
